@@ -371,6 +371,7 @@ static void keylabel(const cdesc *d, char *o, size_t n)
     else if (a || b) snprintf(o, n, "%s", a ? a : b);
     else if (d->anc != A_RIGHT) snprintf(o, n, "%s", d->anc == A_NONE ? "no-anchor" : d->anc == A_WRONG || d->anc == A_MANY_WRONG ? "wrong-anchor" : ANC[d->anc]);
     else if (d->apl >= 0 && d->L - 2 > d->apl) snprintf(o, n, "anchor-pathlen-exceeded");
+    else if (d->op[0] != OP_NONE || d->op[1] != OP_NONE) snprintf(o, n, "%s", d->op[0] != OP_NONE ? OPS[d->op[0]].name : OPS[d->op[1]].name);   /* recorded-only / benign operator */
     else if (d->ord) snprintf(o, n, "permuted");
     else snprintf(o, n, "unlabelled");
 }
